@@ -2,6 +2,7 @@ import WV.Model.C12
 import WV.Model.ClientData
 import WV.Model.C05
 import WV.Model.C10
+import WV.Model.C20
 
 /-! Line-protocol driver over the executable models.  First stdin line names the model
     (`C12`, …); every following line is one operation; one output line per operation. -/
@@ -18,6 +19,7 @@ def dispatch (which : String) (lines : List String) : List String :=
   | "CLIENT" => WV.ClientData.driver lines
   | "C05" => WV.C05.driver lines
   | "C10" => WV.C10.driver lines
+  | "C20" => WV.C20.driver lines
   | _ => ["unknown-model " ++ which]
 
 def main : IO Unit := do
